@@ -518,10 +518,10 @@ mod quic {
                     _ => return None,
                 });
             }
-            for _ in 0..4 {
-                if cur.next()? != 0 {
-                    return None;
-                }
+            let z1 = cur.next()?;
+            let z2 = cur.next()?;
+            if z1 > 1_000_000 || z2 > 1 || cur.next()? != 0 || cur.next()? != 0 {
+                return None;
             }
             if cur.1 != c.len() {
                 return None;
@@ -608,8 +608,6 @@ mod quic {
         let mut nops = 0;
         let nmsgs = rng.range(1, if thorough { 8 } else { 5 });
         let mut unflushed = false;
-        let mut queued = 0u64;
-        let mut force_flush = false;
         for i in 0..nmsgs {
             let b = (i * 2 + rng.below(2) * 100 + 3) % 256;
             let mut len = match tag {
@@ -626,26 +624,18 @@ mod quic {
             if rng.chance(50) {
                 ops.extend([1, b, len]);
                 unflushed = true;
-                if queued >= 65536 {
-                    force_flush = true;
-                }
-                queued += len + 10;
                 if i == 0 || rng.chance(50) {
                     ops.push(2);
                     nops += 1;
                     unflushed = false;
-                    queued = 0;
-                    force_flush = false;
                 }
             } else {
                 ops.extend([3, b, len]);
                 unflushed = false;
-                queued = 0;
-                force_flush = false;
             }
             nops += 1;
         }
-        if unflushed && (force_flush || rng.chance(80)) {
+        if unflushed && rng.chance(60) {
             ops.push(2);
             nops += 1;
         }
